@@ -134,7 +134,34 @@ def t2_states(T, consts):
          "Definition alert_keep_severity : N := %d." % warning.pop()]
     return "\n".join(L) + "\n"
 
+def t6_key_bits(T, consts):
+    U = T.Untranslatable
+    src = T.strip_comments(T.read("src/tls_ec.rs"))
+    body = T.fn_body(src, "key_bits", "src/tls_ec.rs")
+    if T.nows(body.split("match")[0]) != "": raise U("key_bits prologue changed")
+    blk, post = T.find_match(body, r"self", "key_bits")
+    if T.nows(post) != "": raise U("key_bits epilogue changed")
+    arms, dflt = [], False
+    for pat, rhs in T.match_arms(blk, "key_bits"):
+        r = T.nows(rhs)
+        if T.nows(pat) == "_":
+            if r != "None": raise U("key_bits default arm %r" % rhs)
+            dflt = True; continue
+        if dflt: raise U("key_bits: arm after default")
+        m = re.fullmatch(r"NamedGroup::(\w+)", T.nows(pat))
+        if not m or ("NamedGroup", m.group(1)) not in consts: raise U("key_bits pattern %r" % pat)
+        mm = re.fullmatch(r"Some\(([0-9_]+)\)", r)
+        if not mm: raise U("key_bits arm body %r" % rhs)
+        arms.append((m.group(1), consts[("NamedGroup", m.group(1))], int(mm.group(1).replace("_", ""))))
+    if not dflt: raise U("key_bits: no default arm")
+    return ("(* GENERATED by tools/translate.py (T6) from NamedGroup::key_bits -- do not edit *)\n"
+            "From Coq Require Import String NArith List.\nImport ListNotations.\nOpen Scope N_scope. Open Scope string_scope.\n"
+            "(* (constant name, its value, Some(bits)) in source order; default arm is None *)\n"
+            "Definition key_bits_arms : list (string * N * N) := [\n  "
+            + ";\n  ".join('("%s", %d, %d)' % a for a in arms) + "\n].\n")
+
 def run(T, step, enums):
     if enums is not None:
         consts = T.const_lookup(enums)
         step("T2", ["StateTable.v"], lambda: {"StateTable.v": t2_states(T, consts)})
+        step("T6", ["KeyBits.v"], lambda: {"KeyBits.v": t6_key_bits(T, consts)})
